@@ -73,6 +73,12 @@ int main(int argc, char** argv) {
         for (size_t k = 0; k < run.err_tok.size(); ++k) { int ti = run.err_tok[k]; auto pp = ti < (int)pos.size() ? pos[ti] : eofpos; want += "[" + std::to_string(pp.first) + ":" + std::to_string(pp.second) + "] PARSE: Syntax error: Unexpected '" + names[run.err_term[k]] + "'\n"; }
         if (run.lex_error) want += "[" + std::to_string(failpos.first) + ":" + std::to_string(failpos.second) + "] PARSE: Unexpected character: " + std::string(1, failbyte) + "\n";
         std::ostringstream es; auto r = p.parse(parse_options{}.set_skip_whitespace(skip_ws).set_skip_newline(skip_nl), string_buffer(std::string(in)), es);
+        {   // the same options set by a chain of setters on a named object (the setters return *this), and one by one
+            parse_options named; named.set_verbose(false).set_skip_whitespace(skip_ws).set_skip_newline(skip_nl);
+            parse_options single; single.set_skip_newline(skip_nl); single.set_skip_whitespace(skip_ws);
+            std::ostringstream e2, e3; auto r2 = p.parse(named, string_buffer(std::string(in)), e2); auto r3 = p.parse(single, string_buffer(std::string(in)), e3);
+            ++checks; if (r2 != r || r3 != r || e2.str() != es.str() || e3.str() != es.str()) { ++fails; if (first.empty()) first = "options given through a named parse_options object (chained / separate setter calls) behave differently from the same options on a temporary: input of " + std::to_string(in.size()) + " bytes, option set " + std::to_string(opt); }
+        }
         (run.ok ? accepted : run.lex_error ? lexerr : synerr)++;
         auto fail = [&](const std::string& w) { ++fails; if (first.empty()) { std::string v; for (unsigned char c : in) { if (c >= 0x20 && c < 0x7f && c != '\\' && c != '"') v += char(c); else { char b[8]; std::snprintf(b, sizeof b, "<%02x>", c); v += b; } } first = std::string(opt == 0 ? "" : opt == 1 ? "[skip_newline off] " : "[skip_whitespace off] ") + "input '" + v + "': " + w; } };
         ++checks; if (r.has_value() != run.ok) { fail(std::string("parse ") + (r ? "succeeded" : "failed") + ", expected the opposite; stream: " + es.str()); continue; }
